@@ -53,6 +53,24 @@ def run(pid, path):
         else:
             _print("REPLAY: implementation and model agree on %d lines" % len(gq))
         if cmd == "engine":
+            # generic history predicates that need no model description
+            prev_exec, by_step = None, {}
+            for x in g:
+                f = x.split()
+                if len(f) >= 4 and f[1] == "move" and f[2] == "executable":
+                    prev_exec = f[3]
+                elif len(f) >= 3 and f[1] == "result":
+                    if prev_exec == "true" and f[2] != "done":
+                        still = True
+                        _print("REPLAY: step %s: move reported executable but Execute returned %s" % (f[0], f[2]))
+                    prev_exec = None
+                if f and f[0].isdigit() and len(f) > 1 and f[1] in ("route", "cell", "planned", "unplanned", "fixed", "score"):
+                    by_step.setdefault(int(f[0]), []).append(" ".join(f[1:]))
+            res = {int(x.split()[0]): x.split()[2] for x in g if len(x.split()) >= 3 and x.split()[1] == "result" and x.split()[0].isdigit()}
+            for k in sorted(by_step):
+                if k - 1 in by_step and res.get(k) in ("notdone", "noop") and by_step[k] != by_step[k - 1]:
+                    still = True
+                    _print("REPLAY: step %d answered %s but the solution changed" % (k, res[k]))
             import oracles as O
             import gen_engine  # noqa: F401
             try:
